@@ -1876,7 +1876,7 @@ func c19RunRacing(rep *vk.Report, gi, rounds int) {
 
 func TestVerif_C19(t *testing.T) {
 	rep := vk.NewReport(t, "C19", "exploration")
-	rep.Rule = "(relay) 2-5 WebSocket clients with identical upgrade-request headers on one Relay in front of the middleware, 6-19 acknowledged REQ/CLOSE steps, gauges compared after every step and after all have left; a group = one fresh registry + NewPrometheusMiddleware over the monitor's boundary handler; profiles: mixed (1-8 sessions, 3-10 rounds of 0-8 seeded operations per session: REQ/CLOSE/EVENT/COUNT/AUTH from the client, EOSE/EVENT/NOTICE/OK/AUTH/COUNT/CLOSED from the handler, 2-4 subscription ids shared by all sessions, sessions ended by cancel / inbound close / handler return at a seeded position), maxsubs (same, with a real NewMaxSubscriptionsMiddleware(1..3) below the boundary producing CLOSED), churn (150/400 rounds on one registry, 0-8 sessions starting and 0-8 ending simultaneously, REQ-heavy), burst (250/1000 rounds of 2-4 sessions released by a spin barrier into the middleware at the same instant, compared, then ended at the same instant, compared; no messages), racing (500/3000 rounds on 1-3 long-lived sessions: the client's CLOSE and the handler's CLOSED for the same open subscription - or REQ and CLOSED, or CLOSE and the session's end - are released by the spin barrier at the same instant with a seeded skew; the chain continues only after both were observed on their far sides). All operations of a round run concurrently; REQ/CLOSE/CLOSED of the same (session, id) are causally chained except for the racing pairs, whose two members are applied to the model together (CLOSE || CLOSED: ended once; REQ || CLOSED: open-or-ended, gauge accepted in a range of one until settled). One evaluation = one quiescent point at which Gather() is compared with both sides' records; non-trivial = live sessions or a subscription-set transition in the round; distinct = (profile, live sessions, open subscriptions, set of transition classes of the round)"
+	rep.Rule = "(relay) 2-5 WebSocket clients with identical upgrade-request headers on one Relay in front of the middleware, 6-19 acknowledged REQ/CLOSE steps, gauges compared after every step and after all have left; a group = one fresh registry + NewPrometheusMiddleware over the monitor's boundary handler; profiles: mixed (1-8 sessions, 3-10 rounds of 0-8 seeded operations per session: REQ/CLOSE/EVENT/COUNT/AUTH from the client, EOSE/EVENT/NOTICE/OK/AUTH/COUNT/CLOSED from the handler, 2-4 subscription ids shared by all sessions, sessions ended by cancel / inbound close / handler return at a seeded position), maxsubs (same, with a real NewMaxSubscriptionsMiddleware(1..3) below the boundary producing CLOSED), churn (150/400 rounds on one registry, 0-8 sessions starting and 0-8 ending simultaneously, REQ-heavy), burst (250/1000 rounds of 2-4 sessions released by a spin barrier into the middleware at the same instant, compared, then ended at the same instant, compared; no messages), racing (500/3000 rounds on 1-3 long-lived sessions: the client's CLOSE and the handler's CLOSED for the same open subscription - or REQ and CLOSED, or CLOSE and the session's end - are released by the spin barrier at the same instant with a seeded skew; the chain continues only after both were observed on their far sides). All operations of a round run concurrently; REQ/CLOSE/CLOSED of the same (session, id) are causally chained except for the racing pairs, whose two members are applied to the model together (CLOSE || CLOSED: ended once; REQ || CLOSED: open-or-ended, gauge accepted in a range of one until settled). One evaluation = one quiescent point at which Gather() is compared with both sides' records; added later: compositions in which one instance serves two sessions of one connection (merge children, the instance twice in a stack, below another instance), compared after every acknowledged step; 6000/40 000 EVENTs of pairwise distinct kinds through one instance; non-trivial = live sessions or a subscription-set transition in the round; distinct = (profile, live sessions, open subscriptions, set of transition classes of the round)"
 	rep.Assume("counter values of a session that was cut while a message was between the two sides are accepted anywhere between 'observed on the far side' and 'taken by the middleware'")
 	rep.Assume("unknown message types (label UNDEFINED) and typed-nil messages are not generated; mocrelay_req_response_seconds is not judged")
 	defer rep.Finish()
